@@ -52,7 +52,7 @@ def conv_values(L):
     out = []
     for j in range(1, len(L)):
         with np.errstate(all="ignore"):
-            out.append(abs((L[j - 1] - L[j]) / L[j - 1]))
+            out.append(float(abs((np.float64(L[j - 1]) - np.float64(L[j])) / np.float64(L[j - 1]))))  # 0/0 = nan, x/0 = inf, as in NumPy
     return out
 
 
